@@ -17,18 +17,43 @@ def parseBinding (s : String) : Option (Bytes × Bytes) :=
     pure (kb, vb)
   | _ => none
 
-def parseOp (line : String) : Option (Bytes × List (Bytes × Bytes)) :=
+def parseBindings (toks : List String) : Option (List (Bytes × Bytes)) := toks.mapM parseBinding
+
+/-- State: the process environment as an association list (later bindings win). -/
+abbrev St := List (Bytes × Bytes)
+
+inductive Op where
+  | expand (text : Bytes)                 -- `x`: expand under the current environment
+  | replaceEnv (bs : List (Bytes × Bytes)) (text : Option Bytes)   -- `reset` / `exp`
+  | set (k v : Bytes)
+  | unset (k : Bytes)
+
+def parseOp (line : String) : Option Op :=
   match tokens line with
   | "exp" :: t :: binds => do
     let text ← bytesOfHex t
-    let bs ← binds.mapM parseBinding
-    pure (text, bs)
+    let bs ← parseBindings binds
+    pure (.replaceEnv bs (some text))
+  | "reset" :: binds => (parseBindings binds).map fun bs => .replaceEnv bs none
+  | ["set", kv] => (parseBinding kv).map fun (k, v) => .set k v
+  | ["unset", k] => (bytesOfHex k).map .unset
+  | ["x", t] => (bytesOfHex t).map .expand
   | _ => none
 
-def step (line : String) : String :=
+def apply (st : St) : Op → St × Option Bytes
+  | .expand text => (st, some (expand (envOfList st) text))
+  | .replaceEnv bs (some text) => (bs, some (expand (envOfList bs) text))
+  | .replaceEnv bs none => (bs, none)
+  | .set k v => (st ++ [(k, v)], none)
+  | .unset k => (st.filter (fun p => p.1 != k), none)
+
+def step (st : St) (line : String) : St × String :=
   match parseOp line with
-  | some (text, bs) => "ok " ++ hexTok (expand (envOfList bs) text)
-  | none => "bad-op"
+  | none => (st, "bad-op")
+  | some op =>
+    match apply st op with
+    | (st', some out) => (st', "ok " ++ hexTok out)
+    | (st', none) => (st', "ok")
 
 /-! Executable statement of C37 on the implementation's own answer.  Written directly from the
     property text for texts with at most one `$` (not through `tokens`); for texts with several
@@ -59,30 +84,40 @@ def oneDollar (env : Env) (pre rest : Bytes) : Bytes × String :=
       (pre ++ (env name).getD (cDollar :: name) ++ post, "bare-form")
     else (pre ++ cDollar :: rest, "dollar-literal")
 
-def spec (line : String) (implOut : String) : String :=
-  if implOut.startsWith "panic" || implOut.startsWith "crash" then "fail crashed"
-  else match parseOp line, tokens implOut with
-    | some (text, bs), ["ok", o] =>
-      match bytesOfHex o with
-      | none => "fail unparsable-output"
-      | some out =>
-        let env := envOfList bs
-        let nd := (text.filter (· == cDollar)).length
-        if nd == 0 then (if out == text then "ok" else "fail no-dollar-changed")
-        else if nd == 1 then
-          let pre := text.takeWhile (· != cDollar)
-          let rest := (text.dropWhile (· != cDollar)).drop 1
-          let (want, form) := oneDollar env pre rest
-          if out == want then "ok" else "fail " ++ form
-        else if out == expand env text then "ok" else "fail not-single-pass"
-    | some _, _ => "fail unparsable-output"
-    | none, _ => "bad-op"
+/-- The statement on one answer, given the environment the expansion ran under. -/
+def judge (env : Env) (text : Bytes) (implOut : String) : String :=
+  match tokens implOut with
+  | ["ok", o] =>
+    match bytesOfHex o with
+    | none => "fail unparsable-output"
+    | some out =>
+      let nd := (text.filter (· == cDollar)).length
+      if nd == 0 then (if out == text then "ok" else "fail no-dollar-changed")
+      else if nd == 1 then
+        let pre := text.takeWhile (· != cDollar)
+        let rest := (text.dropWhile (· != cDollar)).drop 1
+        let (want, form) := oneDollar env pre rest
+        if out == want then "ok" else "fail " ++ form
+      else if out == expand env text then "ok" else "fail not-single-pass"
+  | _ => "fail unparsable-output"
+
+def specStep (st : St) (l : String) : St × String :=
+  match l.splitOn "\t" with
+  | [line, implOut] =>
+    if implOut.startsWith "panic" || implOut.startsWith "crash" then (st, "fail crashed")
+    else match parseOp line with
+      | none => (st, "bad-op")
+      | some op =>
+        let (st', _) := apply st op
+        match op with
+        | .expand text => (st', judge (envOfList st) text implOut)
+        | .replaceEnv bs (some text) => (st', judge (envOfList bs) text implOut)
+        | _ => (st', if tokens implOut == ["ok"] then "ok" else "fail unparsable-output")
+  | _ => (st, "bad-op")
 
 def main (args : List String) : IO Unit :=
   match args with
-  | ["spec"] => runPure (fun l => match l.splitOn "\t" with
-      | [op, out] => spec op out
-      | _ => "bad-op")
-  | _ => runPure step
+  | ["spec"] => runLines ([] : St) specStep
+  | _ => runLines ([] : St) step
 
 end MM.Engine.C37
